@@ -156,3 +156,22 @@ def check(prog: Program, rep):
     # (or queued fix) is stated (C05.R1)
     from rules.common import RuleProxy as _RPf
     semantic.flag_pairing(prog, _RPf(rep, "C08.R2"), "C05.R1")
+    from rules.plumb import constraints_as_safe_sequences_rule
+    constraints_as_safe_sequences_rule(prog, _RPf(rep, "C08.R8"), "C05.R10")
+    # the length of a solution path, which selects its slack factor, is the length of the path itself
+    _ep = prog.own_method("AbstractPathModelDAG", "_encode_paths")
+    _rows = [c for c in calls_in(_ep.node) if isinstance(c.func, ast.Attribute) and c.func.attr == "add_constraint" and c.args and "self.path_length_vars[" in norm(c.args[0])]
+    if not _rows:
+        raise AnalysisError("AbstractPathModelDAG._encode_paths: the row defining path_length_vars was not found")
+    for _c in _rows:
+        _gens = [g for n_ in ast.walk(_c.args[0]) if isinstance(n_, (ast.GeneratorExp, ast.ListComp)) for g in n_.generators]
+        _all_edges = any(norm(g.iter) in ("self.G.edges()", "self.G.edges") and not any("source" in norm(i) or "sink" in norm(i) for i in g.ifs) for g in _gens)
+        _zero_for_synthetic = "source_sink_edges" in norm(_c.args[0]) or "self.G.source" in norm(_c.args[0])
+        key = "AbstractPathModelDAG._encode_paths:path-length-own-edges"
+        if _all_edges and not _zero_for_synthetic:
+            rep.violation("C08.R8", key, "path_length_vars[i] sums `.get(length_attr, 1)` over *all* edges of the internal graph, the synthetic (source, first node) and (last node, "
+                          "sink) edges included - each counts 1: the model selects the slack factor by |P| + 2 (documentation: |P_i|, the length of the solution path). s->a 5, "
+                          "a->t 9, k=1, ranges [[0,2],[3,100]], factors [1,2]: slack 1 reported (length read as 4), 2 by brute force; ranges [[0,2]] alone: kInfeasible",
+                          _ep.loc(_c), self_contained=True)
+        else:
+            rep.ok("C08.R8", key, "the path length sums the lengths of the path's own edges", _ep.loc(_c))
